@@ -5,7 +5,7 @@ rows=[]
 for d in sorted(glob.glob('/verif/seeded/C*')):
     try: m=json.load(open(d+'/meta.json'))
     except Exception: continue
-    first='first run' if m['first_run_of_my_check'].startswith('detected') else 'after strengthening'
+    first='first run' if m['first_run_of_my_check'].startswith('detected') else ('no longer breaks the property (tree repaired)' if m['first_run_of_my_check'].startswith('not applicable') else 'after strengthening')
     rows.append((m['label'],m['breaks_property'],", ".join(m['changed_files']),m['needs_to_manifest'],m['detected_by'],first,m['first_run_of_my_check']))
 print("| seeded change | files | needs to manifest | caught by | when |")
 print("|---|---|---|---|---|")
@@ -17,6 +17,6 @@ print()
 for r in rows:
     if not r[6].startswith('detected'):
         print("* **%s** — %s"%(r[0],r[6]))
-n=len(rows); f=sum(1 for r in rows if r[6].startswith('detected'))
+n=len(rows); f=sum(1 for r in rows if r[6].startswith('detected')); inv=sum(1 for r in rows if r[6].startswith('not applicable'))
 print()
-print("%d seeded changes, %d caught by the check as it was when the change arrived, %d only after the check was strengthened; after strengthening all %d are reported on every run (quick tier) and the unchanged tree stays silent."%(n,f,n-f,n))
+print("%d seeded changes, %d caught by the check as it was when the change arrived, %d only after the check was strengthened, %d made harmless by the repair of a genuine defect it leaned on; after strengthening the %d that still break their property are reported on every run (quick tier) and the unchanged tree stays silent."%(n,f,n-f-inv,inv,n-inv))
